@@ -243,6 +243,7 @@ pub fn run(ctx: &mut Ctx) -> Result<(), Violation> {
     ctx.stage("api-random-functions-up-to-8-vars", false, r)?;
     let wc = ctx.tier.cases(6_000, 200_000);
     crate::wide::stage_model(ctx, "wide-functions", wc)?;
+    crate::wide::stage_collisions(ctx, "operands-with-equal-hash-sub-diagrams", "model")?;
 
     // diagrams that do not come from the extracting environment (plain values such as
     // BDD::<usize>::from(named) produces, or another environment's nodes): all 3- and 4-variable functions
